@@ -1721,6 +1721,10 @@ class Interp:
         for p in paths:
             try:
                 node = self.ver.parse_spec(p) if isinstance(p, str) else p
+                from .modset import _root
+                rn = _root(node)
+                if rn is not None and rn in names and env.lookup(rn) is None:
+                    continue    # a container local first bound inside the loop body: nothing to havoc yet
                 saved = self.spec
                 self.spec = True
                 try:
@@ -1743,18 +1747,31 @@ class Interp:
         self.havoc_ghost_targets(s, env)
 
     def havoc_ghost_targets(self, s, env):
-        """in addition to the ghost variables some registered effect statement writes (havoc'd in
-        havoc_loop_targets), the accumulator-style ghosts of the contract under verification ("empty"-initialised)
-        are always treated as written by a loop body that performs calls: ghost builtins such as
-        map_set_all(m, ...) mutate an argument without a syntactic store.  Oracles nobody writes are kept."""
+        """ghost variables written by the `ghost:` statements of the verified contract's cut points
+        (`asserts={"x": [...], "call:x.m": [...]}`) are havoc'd at the cut of every loop whose body contains such a
+        cut point syntactically (ghost variables written by registered `effects` are handled in havoc_loop_targets)."""
         genv = getattr(self, "ghost_env", None)
         cc = self.cur_contract
-        if genv is None or not genv.vars or cc is None:
+        if genv is None or not genv.vars or cc is None or len(self.fn_stack) != 1:
             return
-        if not any(isinstance(x, ast.Call) for st in list(s.body) + list(s.orelse) for x in ast.walk(st)):
+        writes = self.ver.ghost_cut_writes(cc)
+        if not writes:
             return
-        done = set(self.ver.ghost_written_names())
-        for nm in sorted(g for g, (_, init) in cc.ghost.items() if init == "empty" and g not in done):
+        from .modset import _target_names
+        cuts = set()
+        for st in list(s.body) + list(s.orelse):
+            for x in ast.walk(st):
+                if isinstance(x, (ast.Assign, ast.AnnAssign)):
+                    for t in getattr(x, "targets", [getattr(x, "target", None)]):
+                        if t is not None:
+                            _target_names(t, cuts)
+                elif isinstance(x, ast.Expr) and isinstance(x.value, ast.Call):
+                    cuts.add("call:" + ast.unparse(x.value.func))
+        names = set()
+        for key, ns in writes.items():
+            if key in cuts:
+                names |= ns
+        for nm in sorted(names):
             cur = genv.vars.get(nm)
             if cur is None:
                 continue
